@@ -1,4 +1,7 @@
 /-
+  UPDATE (build round 2): `C03_kinds_faithful_statement` is PROVED in Properties/C03Kinds.lean; optimality among canonical labellings in C03Canon.lean; the exchange argument and `= Spec.optimum` in C03Full.lean; oracle adequacy in C03Spec.lean.
+  (The text below is kept as written in round 1; where it says "missing" / "not proved", see the files above.)
+
   C03 for the unordered solvers (`uspfs`: base and extended), as far as the label
   DP theory reaches: the table is exact with respect to the GENERIC evaluator
   `labCost (unAlg c)` (per-kind edge charges of `_compute_uspfs_entry`), inside
